@@ -466,6 +466,7 @@ func noiseAttack(r *simcore.Run, sides [2]*noiseSide, wires [2]*simWire) {
 	r.Logf("attacker: %s on traffic to %s", names[kind], vic.name)
 	r.Count("fault_attack_" + names[kind])
 	clean := 0 // frames before the first altered one that must still read fine
+	orig := append([]byte(nil), wire.buf...)
 	switch kind {
 	case 0:
 		pos := r.Draw(len(wire.buf))
@@ -515,6 +516,23 @@ func noiseAttack(r *simcore.Run, sides [2]*noiseSide, wires [2]*simWire) {
 		foreign := make([]byte, len(f0))
 		r.Tape.Bytes(foreign)
 		wire.buf = append(foreign, wire.buf...)
+	}
+	// What the attacker did may leave a prefix of the stream byte-identical
+	// (a byte inserted after a run of equal bytes at the end of a frame is an
+	// insertion BETWEEN frames; a deleted byte may equal its neighbour): the
+	// frames that lie entirely inside the common prefix of the original and
+	// the altered stream are untouched and must read intact.
+	common := 0
+	for common < len(orig) && common < len(wire.buf) && orig[common] == wire.buf[common] {
+		common++
+	}
+	clean = 0
+	for off, i := 0, first; i < len(w.frames); i++ {
+		if off+len(w.frames[i]) > common {
+			break
+		}
+		off += len(w.frames[i])
+		clean++
 	}
 	// victim reads: the first `clean` frames must arrive intact, then an error
 	for i := 0; i < clean; i++ {
